@@ -57,10 +57,42 @@ def const_str(prog: Program, fi: FuncInfo, expr: ast.AST, depth: int = 4) -> str
                 if isinstance(d, GlobalVar) and d.value is not None:
                     if isinstance(d.value, ast.Constant) and isinstance(d.value.value, str):
                         return d.value.value
+                    # a module constant computed from other module constants (NAME + ".tmp", f"{NAME}.tmp")
+                    v = _module_const_str(prog, fi.module, d.value, fi.variant, depth - 1)
+                    if v is not None:
+                        return v
     if isinstance(expr, ast.Attribute):
         for d in prog.resolve_expr_static(fi.module, expr, fi.variant):
             if isinstance(d, GlobalVar) and isinstance(d.value, ast.Constant) and isinstance(d.value.value, str):
                 return d.value.value
+    return None
+
+
+def _module_const_str(prog: Program, mod, expr: ast.AST, variant, depth: int) -> str | None:
+    if depth <= 0 or expr is None:
+        return None
+    if isinstance(expr, ast.Constant) and isinstance(expr.value, str):
+        return expr.value
+    if isinstance(expr, ast.BinOp) and isinstance(expr.op, ast.Add):
+        a, b = _module_const_str(prog, mod, expr.left, variant, depth - 1), _module_const_str(prog, mod, expr.right, variant, depth - 1)
+        return a + b if a is not None and b is not None else None
+    if isinstance(expr, ast.JoinedStr):
+        parts = []
+        for v in expr.values:
+            if isinstance(v, ast.Constant):
+                parts.append(str(v.value))
+            elif isinstance(v, ast.FormattedValue) and v.format_spec is None:
+                p = _module_const_str(prog, mod, v.value, variant, depth - 1)
+                if p is None:
+                    return None
+                parts.append(p)
+            else:
+                return None
+        return "".join(parts)
+    if isinstance(expr, ast.Name):
+        for d in prog.lookup(mod, expr.id, variant):
+            if isinstance(d, GlobalVar) and d.value is not None:
+                return _module_const_str(prog, mod, d.value, variant, depth - 1)
     return None
 
 
